@@ -202,10 +202,10 @@ Proof.
   destruct w as [[w0 w1] w2]. unfold V3 in *.
   unfold trexp_so3, rodrigues3. destruct (iszerovec3 Rops K _).
   - intros E; injection E as <-. apply SO3_I.
-  - unfold unitvec_norm3. cbv zeta. destruct (ltb Rops _ _) eqn:Hn; [|discriminate].
+  - unfold unitvec_norm3. cbv zeta. destruct (leb Rops _ _) eqn:Hn; [|discriminate].
     intros E; injection E as <-.
-    cbn [ltb Rops] in Hn. apply Rltb_true in Hn. rewrite thv_R in Hn.
-    assert (H0 : 0 <= IZR (k_unit K) * eps Rops) by (apply Rmult_le_pos; lra).
+    cbn [leb Rops] in Hn. apply Rleb_true in Hn. rewrite thv_R in Hn.
+    assert (H0 : 0 < IZR (k_unit K) * eps Rops) by (apply Rmult_lt_0_compat; lra).
     unfold rodrigues_th. apply rodrigues_cs_SO3; [|apply cs_unit].
     c03_simpl. set (n := sqrt (w0*w0 + w1*w1 + w2*w2)) in *.
     assert (Hsq : n * n = w0*w0 + w1*w1 + w2*w2) by (apply sqrt_sqrt; nra).
